@@ -43,6 +43,10 @@ def library_flows():
     out.append(("Flow(MAF-transform ctx, ConditionalDiagonalNormal, embedding)", lambda: Flow(ar.MaskedAffineAutoregressiveTransform(2, 8, context_features=4),
                 normal.ConditionalDiagonalNormal([2]), embedding_net=nn.Linear(3, 4)), 2, 3))
     out.append(("MaskedAutoregressiveFlow (no context)", lambda: MaskedAutoregressiveFlow(2, 8, 2, 1), 2, None))
+    from nflows.transforms import permutations as perm
+    out.append(("MaskedAutoregressiveFlow(4 features, random permutations)", lambda: MaskedAutoregressiveFlow(4, 8, 2, 1, use_random_permutations=True), 4, None))
+    out.append(("Flow(RandomPermutation ; MAF-transform ctx ; RandomPermutation, StandardNormal)", lambda: Flow(base.CompositeTransform([
+        perm.RandomPermutation(5), ar.MaskedAffineAutoregressiveTransform(5, 8, context_features=3), perm.RandomPermutation(5)]), normal.StandardNormal([5])), 5, 3))
     out.append(("Flow(Sigmoid-1 o affine 1-D, StandardNormal)", lambda: Flow(base.CompositeTransform([nl.LeakyReLU(0.3)]), normal.StandardNormal([1])), 1, None))
     return out
 
@@ -207,8 +211,6 @@ def search(ck, drv, tier, seed):
     # SAME context tensor is overwritten in place, sampling and log_prob agree with a twin that was built with the new parameters
     # and has never been called (same generator seed -> same noise).  Evaluation mode, no gradients, as at deployment.
     for name, mk, D, cd in library_flows():
-        if cd is None:
-            continue
         torch.manual_seed(seed)
         A = mk().eval()
         torch.manual_seed(seed + 1)
@@ -216,8 +218,8 @@ def search(ck, drv, tier, seed):
         from catalogue import randomize as _rnd
         _rnd(B, seed + 2, 0.5)
         g = torch.Generator(); g.manual_seed(seed + 3)
-        c = torch.randn(3, cd, generator=g)
-        c_new = torch.randn(3, cd, generator=g)
+        c = torch.randn(3, cd, generator=g) if cd is not None else None
+        c_new = torch.randn(3, cd, generator=g) if cd is not None else None
         x = torch.randn(3, D, generator=g) * 0.5
         ck.case(("twin", name), nontrivial=True)
         case = {"search": "used-flow-vs-fresh-twin", "flow": name, "seed": seed}
@@ -232,8 +234,10 @@ def search(ck, drv, tier, seed):
             return u.shape == v.shape and bool(torch.allclose(u, v, atol=1e-5, rtol=1e-5, equal_nan=True))
         for what in ("after load_state_dict", "after the context tensor was overwritten in place"):
             if what.startswith("after the context"):
+                if c is None:
+                    break
                 c.copy_(c_new)
-            cb = c.clone()
+            cb = c.clone() if c is not None else None
             with torch.no_grad():
                 torch.manual_seed(seed + 9); ra = attempt(A.sample_and_log_prob, 4, c)
                 torch.manual_seed(seed + 9); rb = attempt(B.sample_and_log_prob, 4, cb)
@@ -249,6 +253,16 @@ def search(ck, drv, tier, seed):
                 bad = "sample"
             elif la[0] != lb[0] or (la[0] == "ok" and not same(la[1], lb[1])):
                 bad = "log_prob"
+            if not bad and ra[0] == "ok":
+                # ... and what the restored flow returns with its samples is what its log_prob says about them
+                with torch.no_grad():
+                    s_, lp_ = ra[1]
+                    if c is None:
+                        l2 = attempt(A.log_prob, s_)
+                    else:
+                        l2 = attempt(lambda: A.log_prob(s_.reshape(-1, D), c.repeat_interleave(4, 0)).reshape(lp_.shape))
+                if l2[0] == "ok" and not torch.allclose(lp_, l2[1], atol=2e-4, rtol=2e-4):
+                    bad = "sample_and_log_prob's log-probabilities (not log_prob of its samples, max diff %.3g)," % float((lp_ - l2[1]).abs().max())
             if bad:
                 ck.finding("flow:used-flow-differs-from-fresh-twin:%s" % name,
                            "%s: %s %s differs from a never-called twin holding the same parameters (same noise)" % (name, bad, what), case)
@@ -319,6 +333,29 @@ def search(ck, drv, tier, seed):
                            "%d mixture components, context row %d: KS distance %.4f between 50000 samples and the integrated density" % (K, row, ksm),
                            {"search": "ks-mog", "K": K, "row": row, "seed": seed})
                 break
+    # ---- an evaluation-mode model stays in evaluation mode through sampling (its regularisers stay off), so what
+    # sample_and_log_prob returns is what log_prob says about those samples afterwards
+    for dname_, mkd_ in (("MADEMoG(dropout 0.3, norm in blocks)", lambda: mix_.MADEMoG(2, 8, 2, num_blocks=1, num_mixture_components=2, use_residual_blocks=False,
+                                                                                       dropout_probability=0.3, use_batch_norm=True, custom_initialization=True)),
+                         ("Flow(affine, MADEMoG(dropout 0.3))", lambda: Flow(standard.PointwiseAffineTransform(0.1, 1.3),
+                                                                            mix_.MADEMoG(2, 8, 2, num_blocks=1, num_mixture_components=2, dropout_probability=0.3, custom_initialization=True)))):
+        torch.manual_seed(seed + 77)
+        dm = mkd_().eval()
+        cm = torch.randn(3, 2)
+        ck.case(("eval-mode-sampling", dname_), nontrivial=True)
+        case = {"search": "eval-mode-sampling", "model": dname_, "seed": seed}
+        with torch.no_grad():
+            r = attempt(dm.sample_and_log_prob, 4, cm)
+        if r[0] != "ok":
+            continue
+        flipped = [n_ for n_, m_ in dm.named_modules() if m_.training]
+        if flipped:
+            ck.finding("flow:sampling-leaves-training-mode:%s" % dname_, "%d sub-modules of an eval() model are in training mode after sampling, e.g. %s" % (len(flipped), flipped[:3]), case)
+            continue
+        with torch.no_grad():
+            lp2 = attempt(lambda: dm.log_prob(r[1][0].reshape(12, 2), cm.repeat_interleave(4, 0)).reshape(3, 4))
+        if lp2[0] == "ok" and not torch.allclose(r[1][1], lp2[1], atol=1e-4, rtol=1e-4):
+            ck.finding("flow:returned-log_prob-is-not-log_prob-of-sample:%s" % dname_, "max diff %g" % float((r[1][1] - lp2[1]).abs().max()), case)
     # ---- the samples follow exp(log_prob): 1-D flow, KS distance against the quadrature CDF (fixed seed; search aid)
     from nflows.flows.base import Flow
     from nflows.transforms import base, nonlinearities as nl, standard
